@@ -111,6 +111,7 @@ PRES = [('fill', ['red', 'none', '#abc', 'url(#lg)', 'rgb(1,2,3)']), ('stroke', 
 
 
 COUNTER = [0]
+USES = []
 
 
 def gen_el(rng, depth, ids):
@@ -184,7 +185,12 @@ def gen_el0(rng, depth, ids):
                                      [('el', ('feGaussianBlur', [('stdDeviation', '2')], None)), ('el', ('feOffset', [('dx', '2'), ('dy', '3')], None))]))])
     own = dict(a).get('id')
     if k < 19 and [x for x in ids if x != own]:
-        return ('use', a + [(rng.choice(['href', 'xlink:href']), '#' + rng.choice([x for x in ids if x != own]))] + ([('x', num(rng)[0]), ('y', num(rng)[0])] if rng.chance(0.6) else []), None)
+        cands = [x for x in ids if x != own]
+        chain = [x for x in USES if x != own and x in cands]
+        tgt = rng.choice(chain) if chain and rng.chance(0.5) else rng.choice(cands)      # a use of a use is a chain, not a cycle
+        if own:
+            USES.append(own)
+        return ('use', a + [(rng.choice(['href', 'xlink:href']), '#' + tgt)] + ([('x', num(rng)[0]), ('y', num(rng)[0])] if rng.chance(0.6) else []), None)
     if k < 20:
         return ('image', a + [('x', num(rng)[0]), ('y', num(rng)[0]), ('width', length(rng).lstrip('-+') or '3'), ('height', '20'), (rng.choice(['href', 'xlink:href']), 'pic.png')], None)
     if k < 21 and depth > 0:
@@ -257,8 +263,16 @@ def run(ctx):
     n = 600 if quick else 10000
     cases = []; docs = []
     for i in range(n):
-        ids = []; COUNTER[0] = 0
+        ids = []; COUNTER[0] = 0; del USES[:]
         els = [gen_el(rng, 2, ids) for _ in range(rng.range(1, 6))]
+        if rng.chance(0.12):
+            # a chain of <use> elements (a use of a use of a shape): standard SVG, not a cycle
+            h = lambda: rng.choice(['href', 'xlink:href'])
+            els += [('rect', [('id', 'cr'), ('x', '1'), ('y', '2'), ('width', '6'), ('height', '4')], None),
+                    ('use', [('id', 'cu1'), (h(), '#cr')] + ([('x', '10'), ('y', '3')] if rng.chance(0.5) else []), None),
+                    ('use', [('id', 'cu2'), (h(), '#cu1')] + ([('x', '5')] if rng.chance(0.3) else []), None)]
+            if rng.chance(0.4):
+                els.append(('use', [(h(), '#cu2'), ('y', '7')], None))
         frag = rng.chance(0.15)
         body = ''.join(src(e) for e in els)
         xml = body if frag and len(els) == 1 else '<svg>%s</svg>' % body
